@@ -65,6 +65,7 @@ class Profile:
         self.min_calls = 0
         self.loop_weight = 1
         self.if_weight = 2
+        self.mnemonic_macro_names = 0.08  # macros named like a mnemonic
         self.ascii_nonascii = 0.06     # .ascii strings that contain a character without an ASCII byte
         self.wide_consts = 0.15        # constants >= 2^24 or negative
         self.empty_prob = 0.1          # a block / scope / loop / branch / macro body with no statement at all
@@ -322,6 +323,10 @@ class ProgGen:
         defs = []
         for i in range(rng.randint(1, 3)):
             name = f"m_{'abc'[i]}"
+            if rng.random() < self.p.mnemonic_macro_names:
+                # a macro may be called like an instruction: `rep(...)` is an application, `rep #0x30` the instruction
+                free = [n for n in ("rep", "dec", "inc", "and", "bit", "sep", "nop", "lda", "REP") if n not in [m["n"] for m in self.macros]]
+                name = rng.choice(free) if free else name
             nparams = rng.randint(0, 3)
             params = [f"p_{'abc'[i]}{c}" for c in "xyz"[:nparams]]  # unique per macro
             gs = GS(self.root, "macro")
@@ -550,7 +555,7 @@ class ProgGen:
                 d = rng.choice(["db", "dw", "dl", "pointer"])
                 out.append({"k": "data", "d": d, "es": [self.value_expr(gs) for _ in range(rng.choice([1, 1, 2, 3, 6]))]})
             elif k == "ascii":
-                txt = "".join(rng.choice("abcXYZ 019;{}#,.") for _ in range(rng.randint(1, 12)))
+                txt = "".join(rng.choice("abcXYZ 019;{}#,.\t") for _ in range(rng.randint(1, 12)))
                 if rng.random() < self.p.ascii_nonascii:
                     # characters without an ASCII byte (what is emitted for them is not specified; that the directive occupies
                     # what it emits is): the reference model leaves such programs to the model-free oracles
@@ -562,7 +567,7 @@ class ProgGen:
                 # the emitted length differ from the number of characters written
                 parts = []
                 for _ in range(rng.randint(1, 8)):
-                    parts.append(rng.choice(["a", "b", "ab", "the ", "~", "Z", "?", " ", "[0x7f]", "[0x1]", "abc", "x", "\u00e9", "\u00df\u00e9", "\u6f22", "\u00fc"]))
+                    parts.append(rng.choice(["a", "b", "ab", "the ", "~", "Z", "?", " ", "[0x7f]", "[0x1]", "abc", "x", "\u00e9", "\u00df\u00e9", "\u6f22", "\u00fc", "\t", "  "]))
                 out.append({"k": "text", "s": "".join(parts)})
             elif k == "incbin":
                 self.n_file += 1
@@ -789,7 +794,9 @@ def generate(rng, profile: Profile, rom: str | None = None, usermap=None):
         import copy
         profile = copy.copy(profile)
         profile.reloc_ram = False
-    return ProgGen(rng, profile, rom, usermap).program()
+    case = ProgGen(rng, profile, rom, usermap).program()
+    case["join_seed"] = rng.randint(0, 1 << 30)  # seed of the "several statements on one line" rendering (used by some checks)
+    return case
 
 
 def strip_private(ir):
